@@ -39,17 +39,17 @@ type Pkg struct {
 	Types     *types.Package
 	SSA       *ssa.Package
 	Prog      *ssa.Program
-	ghostFns  map[string]*ghostFn    // by ghost function name
-	ghostDecl map[string]*ghostFn    // user ghost funcs by name
+	ghostFns  map[string]*ghostFn      // by ghost function name
+	ghostDecl map[string]*ghostFn      // user ghost funcs by name
 	funcByKey map[string]*ssa.Function // contract key -> function
 }
 
 type World struct {
 	Fset     *token.FileSet
-	Pkgs     map[string]*Pkg          // by path
+	Pkgs     map[string]*Pkg // by path
 	Order    []*Pkg
 	allTypes map[string]*types.Package // importer map
-	Contract map[string]*FuncContract // by FullKey
+	Contract map[string]*FuncContract  // by FullKey
 	LibSpecs *PkgContracts
 	RepoDir  string
 	Sizes    types.Sizes
